@@ -350,6 +350,7 @@ def jobs(tier):
     J = []
     A = [{"DOY": (100, 101)}, {"DOY": (360, 361)}]
     for mode in (C.MODES4 if th else ["gregorian"]):
+        lastd = {"gregorian": 366, "360day": 360, "365day": 365, "366day": 366}[mode]
         for iv in INTERVALS:
             win = {"PT1S": (0, 0), "PT90M": (-1, 1), "PT1H": (-1, 1), "PT36H": (-3, 6), "P1D": (-2, 4), "P1W": (-8, 22), "P10D": (-11, 31)}[iv]
             for fmt, repss in ((3, (1, 2, 3, None)), (1, (3,)), (4, (3, None))):
@@ -389,7 +390,7 @@ def jobs(tier):
                 J.append(("job_neighbours", dict(mode=mode, fmt=fmt, reps=None, iv=iv, nominal=True, k=6,
                                                  ranges={"M": (1, 3), "D": (28, 31)})))
                 J.append(("job_neighbours", dict(mode=mode, fmt=fmt, reps=None, iv=iv, nominal=True, k=6, rep="ord",
-                                                 ranges={"DOY": (365, 366)})))
+                                                 ranges={"DOY": (lastd - 1, lastd)})))
                 for res in (104, 399, 4):
                     J.append(("job_neighbours", dict(mode=mode, fmt=fmt, reps=None, iv=iv, nominal=True, k=7, rep="week",
                                                      ranges={"W": (52, 53)}, pins=C.residue_pins(res))))
